@@ -122,6 +122,10 @@ def replay(ctx, case, kind=None, where=None):
         cases = [uc.Case(u) for u in case['urls']]
         uc.correspond(ctx, wu, cases)
         equivalence(ctx, wu, None, cases)
+    elif s == 'longrun':
+        uc.replay_longrun(ctx, wu, case)
+    elif s == 'pct':
+        uc.stream_pct256(ctx, wu)
     elif s == 'ports':
         cases = [uc.Case(u) for u in case['urls']]
         batch(ctx, wu, cases)
@@ -147,26 +151,32 @@ def replay(ctx, case, kind=None, where=None):
 
 def run(ctx):
     wu = uc.setup(ctx)
-    uc.stream_consts(ctx, wu)
+    rs = uc.run_stream        # an exception the real code raises outside a guarded comparison is reported, not a crash
+    rs(ctx, 'consts', lambda: uc.stream_consts(ctx, wu))
     for j in uc.load_corpus(ctx, 'C10'):
-        replay(ctx, j.get('case', j))
+        rs(ctx, 'corpus', lambda j=j: replay(ctx, j.get('case', j)))
     rng = ctx.rng
-    port_matrix(ctx, wu)
-    uc.stream_int(ctx, ctx.scale(3000, 60000), ctx.subrng('int'))
-    uc.stream_ipv4(ctx, wu, ctx.scale(2000, 40000), ctx.subrng('ipv4'))
-    uc.stream_strings(ctx, wu, ctx.scale(4000, 80000), ctx.subrng('str'))
+    rs(ctx, 'ports', lambda: port_matrix(ctx, wu))
+    rs(ctx, 'pct256', lambda: uc.stream_pct256(ctx, wu))
+    rs(ctx, 'int', lambda: uc.stream_int(ctx, ctx.scale(3000, 60000), ctx.subrng('int')))
+    rs(ctx, 'ipv4', lambda: uc.stream_ipv4(ctx, wu, ctx.scale(2000, 40000), ctx.subrng('ipv4')))
+    rs(ctx, 'strings', lambda: uc.stream_strings(ctx, wu, ctx.scale(4000, 80000), ctx.subrng('str')))
+    sweep = uc.byte_sweep_cases()
+    rs(ctx, 'byte-sweep', lambda: batch(ctx, wu, sweep[::2] if ctx.tier == 'quick' else sweep))
     total_spec = ctx.scale(4000, 120000)
     total_seed = ctx.scale(3000, 80000)
     total_mal = ctx.scale(2500, 60000)
     chunks = max(1, total_spec // 4000)
     for k in range(chunks):
-        cases, groups = gen_cases(ctx, wu, rng, total_spec // chunks, total_seed // chunks, total_mal // chunks)
-        batch(ctx, wu, cases)
-        for spec, g in groups:
-            equivalence(ctx, wu, spec, g)
-            ctx.tag('equiv-groups')
+        def chunk():
+            cases, groups = gen_cases(ctx, wu, rng, total_spec // chunks, total_seed // chunks, total_mal // chunks)
+            batch(ctx, wu, cases)
+            for spec, g in groups:
+                equivalence(ctx, wu, spec, g)
+                ctx.tag('equiv-groups')
+        rs(ctx, 'parse', chunk)
     if ctx.tier == 'thorough' and ctx.boost == 1:
-        exhaustive(ctx, wu)
+        rs(ctx, 'exhaustive', lambda: exhaustive(ctx, wu))
         ctx.exhaustive = True
 
 
